@@ -288,6 +288,7 @@ func permutationsOf(n int) [][]int {
 }
 
 func c05Run(e *core.Env) {
+	e.ReserveTail()
 	runLitmus(e)
 	drv := e.Driver()
 	all := c05Pool()
@@ -299,6 +300,7 @@ func c05Run(e *core.Env) {
 	c05Base = jr.RenderAll(all[:3])
 	c05Family(e, drv, all[3:], core.Pick(e, 3, 4), "base-opens")
 	c05Base = ""
+	e.BeginTail()
 	c05ManyFiles(e, drv)
 }
 
@@ -527,7 +529,7 @@ func init() {
 	core.Register(&core.Check{
 		ID: "C05", Level: "model_checking", Run: c05Run, Replay: c05Replay,
 		Added:       "one 81-file two-level layout per journal; 120 transactions spread 1, 2, 5 per file (flat / nested index files) in process and on the free-running binary",
-		QuickBudget: 100 * time.Second, ThoroughBudget: 14 * time.Minute,
+		QuickBudget: 180 * time.Second, ThoroughBudget: 14 * time.Minute,
 		Rule: "every subset of <= k directives of a 12-directive pool (opens, same-day transactions, prices, correct and incorrect assertions, close with non-zero position, duplicate open; journals with two prices for one pair on one day excluded) x {all k! orders in one file} + {every assignment of the directives to 3 files x 3 include-tree shapes (flat, chain, sub-directory with ../) + reversed order}; " +
 			"check/print/5 balance flag sets compared with the canonical single-file layout; on an evenly spaced subset of multi-file layouts all loader schedules within the deviation bound are explored; non-trivial = multi-file layouts of >= 2 directives",
 		Assumptions: []string{"print is compared modulo the order inside (date, kind) blocks, as the statement allows", "include graphs that are not trees are C14's subject"},
